@@ -2,7 +2,7 @@
 # Runs every seeded change against the quick check of its own property (plus sibling checks where the change is
 # filed under one property but another owns the mechanism), one after the other. Output: /verif/.work/seedsweep.log
 cd /verif
-declare -A EXTRA=( [C20-b]="C15" [C06-a]="C03" [C20-a]="C19 C03" [C15-a]="" [C09-a]="" [C10-a]="" [C10-b]="" )
+declare -A EXTRA=( [C20-b]="C15" [C06-a]="C03" [C20-c]="C03" [C20-d]="C03 C24" [C20-a]="C19 C03" [C15-a]="" [C09-a]="" [C10-a]="" [C10-b]="" )
 # usage: seedsweep.sh [seed-id ...]   (default: all); appends to .work/seedsweep.log
 LIST="$@"; [ -n "$LIST" ] || LIST=$(ls seeded | grep '^C')
 for id in $LIST; do
